@@ -35,7 +35,7 @@ theorem tree_cursor_is_rank : Gen.scanCursorIsRank = true := by decide
 
 /-- `StorageEngine::scan` is the cursor walk over the sorted view of the database. -/
 theorem scan_is_walk (g : Cfg) (db : Db) (cursor count : Nat) (pat ty : Option Bytes) :
-    Code.scan g db cursor count pat ty = Code.scanSorted g (Code.matchOpt pat) (view ty db) cursor count := rfl
+    Code.scan g db cursor count pat ty = Code.scanSorted g (Code.matchOpt g.lossy pat) (view ty db) cursor count := rfl
 
 /-! ### Soundness -/
 
@@ -43,14 +43,14 @@ theorem scan_is_walk (g : Cfg) (db : Db) (cursor count : Nat) (pat ty : Option B
     (as the engine's matcher decides it) — for every database, cursor, COUNT, pattern and type. -/
 theorem scan_sound (g : Cfg) (hg : g.ok) (db : Db) (cursor count : Nat) (pat ty : Option Bytes) (k : Bytes)
     (hk : k ∈ (Code.scan g db cursor count pat ty).2) :
-    (∃ t, (k, t) ∈ db ∧ typeOk ty t = true) ∧ Code.matchOpt pat k = true := by
-  have := scanSorted_mem g (Code.matchOpt pat) hg (view ty db) cursor count k hk
+    (∃ t, (k, t) ∈ db ∧ typeOk ty t = true) ∧ Code.matchOpt g.lossy pat k = true := by
+  have := scanSorted_mem g (Code.matchOpt g.lossy pat) hg (view ty db) cursor count k hk
   exact ⟨(mem_view ty db k).mp this.1, this.2⟩
 
 /-- One call never returns more than `min(COUNT, 1000)` keys (COUNT 0 meaning 10). -/
 theorem scan_batch_bounded (g : Cfg) (db : Db) (cursor count : Nat) (pat ty : Option Bytes) :
     (Code.scan g db cursor count pat ty).2.length ≤ Code.normCount g count :=
-  scanSorted_length g (Code.matchOpt pat) (view ty db) cursor count
+  scanSorted_length g (Code.matchOpt g.lossy pat) (view ty db) cursor count
 
 /-! ### Progress and termination -/
 
@@ -60,7 +60,7 @@ theorem scan_progress (g : Cfg) (hg : g.ok) (db : Db) (cursor count : Nat) (pat 
     (Code.scan g db cursor count pat ty).1 = 0 ∨
       (cursor < (Code.scan g db cursor count pat ty).1 ∧
         (Code.scan g db cursor count pat ty).1 < (view ty db).length) :=
-  scanSorted_progress g (Code.matchOpt pat) hg (view ty db) cursor count
+  scanSorted_progress g (Code.matchOpt g.lossy pat) hg (view ty db) cursor count
 
 /-- **Termination bound.**  If the candidate list never grows from one call to the next
     (deletions allowed), a full iteration started at cursor 0 over `n` candidate keys ends after
@@ -69,15 +69,15 @@ theorem scan_progress (g : Cfg) (hg : g.ok) (db : Db) (cursor count : Nat) (pat 
 theorem scan_terminates_nongrowing (g : Cfg) (hg : g.ok) (count : Nat) (pat : Option Bytes)
     (ks : List Bytes) (rest : List (List Bytes)) (hng : NonGrowing (ks :: rest))
     (hlen : ks.length / Code.normCount g count + 1 ≤ (ks :: rest).length) :
-    ∃ n, Code.iterCalls g (Code.matchOpt pat) count 0 (ks :: rest) = some n ∧
+    ∃ n, Code.iterCalls g (Code.matchOpt g.lossy pat) count 0 (ks :: rest) = some n ∧
       1 ≤ n ∧ n ≤ ks.length / Code.normCount g count + 1 := by
-  have := iterCalls_bound g (Code.matchOpt pat) hg count (ks :: rest) 0 ks rest rfl hng (by simpa using hlen)
+  have := iterCalls_bound g (Code.matchOpt g.lossy pat) hg count (ks :: rest) 0 ks rest rfl hng (by simpa using hlen)
   simpa using this
 
 /-- The same for a key space that does not change at all: the iteration over a database whose
     view has `n` keys makes at most `n / min(COUNT,1000) + 1` calls. -/
 theorem scan_terminates (g : Cfg) (hg : g.ok) (db : Db) (count : Nat) (pat ty : Option Bytes) :
-    ∃ n, Code.iterCalls g (Code.matchOpt pat) count 0
+    ∃ n, Code.iterCalls g (Code.matchOpt g.lossy pat) count 0
         (List.replicate ((view ty db).length / Code.normCount g count + 1) (view ty db)) = some n ∧
       1 ≤ n ∧ n ≤ (view ty db).length / Code.normCount g count + 1 := by
   have hrep : List.replicate ((view ty db).length / Code.normCount g count + 1) (view ty db) =
@@ -102,12 +102,12 @@ theorem scan_terminates (g : Cfg) (hg : g.ok) (db : Db) (count : Nat) (pat ty : 
     least one call. -/
 theorem scan_complete_partial (g : Cfg) (hg : g.ok) (count : Nat) (pat ty : Option Bytes) (hist : List Db)
     (hnd : ∀ db ∈ hist, (db.map (·.1)).Nodup)
-    (hfin : Code.iterFinishes g (Code.matchOpt pat) count 0 (hist.map (view ty)) = true)
-    (hsafe : Code.noDelBelow g (Code.matchOpt pat) count 0 (hist.map (view ty)) = true)
+    (hfin : Code.iterFinishes g (Code.matchOpt g.lossy pat) count 0 (hist.map (view ty)) = true)
+    (hsafe : Code.noDelBelow g (Code.matchOpt g.lossy pat) count 0 (hist.map (view ty)) = true)
     (k : Bytes) (hk : ∀ db ∈ hist, ∃ t, (k, t) ∈ db ∧ typeOk ty t = true)
-    (hm : Code.matchOpt pat k = true) :
-    k ∈ (Code.iter g (Code.matchOpt pat) count 0 (hist.map (view ty))).flatten := by
-  apply iter_complete g (Code.matchOpt pat) hg count k hm (hist.map (view ty)) 0
+    (hm : Code.matchOpt g.lossy pat k = true) :
+    k ∈ (Code.iter g (Code.matchOpt g.lossy pat) count 0 (hist.map (view ty))).flatten := by
+  apply iter_complete g (Code.matchOpt g.lossy pat) hg count k hm (hist.map (view ty)) 0
   · intro ks hks
     obtain ⟨db, hdb, rfl⟩ := List.mem_map.mp hks
     exact sorted_view ty db (hnd db hdb)
@@ -128,13 +128,13 @@ theorem scan_complete_partial (g : Cfg) (hg : g.ok) (count : Nat) (pat ty : Opti
     every key that was there from the first call on. -/
 theorem scan_complete_under_additions (g : Cfg) (hg : g.ok) (count : Nat) (pat ty : Option Bytes) (hist : List Db)
     (hnd : ∀ db ∈ hist, (db.map (·.1)).Nodup)
-    (hfin : Code.iterFinishes g (Code.matchOpt pat) count 0 (hist.map (view ty)) = true)
+    (hfin : Code.iterFinishes g (Code.matchOpt g.lossy pat) count 0 (hist.map (view ty)) = true)
     (hadd : Code.onlyAdditions (hist.map (view ty)) = true)
     (k : Bytes) (hk : ∀ db ∈ hist, ∃ t, (k, t) ∈ db ∧ typeOk ty t = true)
-    (hm : Code.matchOpt pat k = true) :
-    k ∈ (Code.iter g (Code.matchOpt pat) count 0 (hist.map (view ty))).flatten :=
+    (hm : Code.matchOpt g.lossy pat k = true) :
+    k ∈ (Code.iter g (Code.matchOpt g.lossy pat) count 0 (hist.map (view ty))).flatten :=
   scan_complete_partial g hg count pat ty hist hnd hfin
-    (noDelBelow_of_onlyAdditions g (Code.matchOpt pat) count _ 0 hadd) k hk hm
+    (noDelBelow_of_onlyAdditions g (Code.matchOpt g.lossy pat) count _ 0 hadd) k hk hm
 
 /-- …and duplicates do occur: keys `b c`; `SCAN 0 COUNT 1` → `b`, cursor 1; `a` is added;
     `SCAN 1 COUNT 1` → `b` again. -/
@@ -149,10 +149,10 @@ theorem scan_additions_duplicate :
 theorem scan_complete_fails :
     ∃ (hist : List Db) (k : Bytes),
       (∀ db ∈ hist, (db.map (·.1)).Nodup) ∧
-      Code.iterFinishes Gen.scanCfg (Code.matchOpt none) 1 0 (hist.map (view none)) = true ∧
+      Code.iterFinishes Gen.scanCfg (Code.matchOpt true none) 1 0 (hist.map (view none)) = true ∧
       (∀ db ∈ hist, ∃ t, (k, t) ∈ db ∧ typeOk none t = true) ∧
-      Code.matchOpt none k = true ∧
-      k ∉ (Code.iter Gen.scanCfg (Code.matchOpt none) 1 0 (hist.map (view none))).flatten := by
+      Code.matchOpt true none k = true ∧
+      k ∉ (Code.iter Gen.scanCfg (Code.matchOpt true none) 1 0 (hist.map (view none))).flatten := by
   refine ⟨[[([97], 0), ([98], 0), ([99], 0)], [([98], 0), ([99], 0)]], [98], ?_, ?_, ?_, ?_, ?_⟩
   · intro db hdb
     simp only [List.mem_cons, List.not_mem_nil, or_false] at hdb
@@ -168,7 +168,7 @@ theorem scan_complete_fails :
 theorem scan_complete_fails_calls :
     Code.scan Gen.scanCfg [([97], 0), ([98], 0), ([99], 0)] 0 1 none none = (1, [[97]]) ∧
     Code.scan Gen.scanCfg [([98], 0), ([99], 0)] 1 1 none none = (0, [[99]]) ∧
-    Code.noDelBelow Gen.scanCfg (Code.matchOpt none) 1 0 [[[97], [98], [99]], [[98], [99]]] = false := by
+    Code.noDelBelow Gen.scanCfg (Code.matchOpt true none) 1 0 [[[97], [98], [99]], [[98], [99]]] = false := by
   refine ⟨?_, ?_, ?_⟩ <;> decide
 
 /-- **The full statement is satisfiable** by a stateless scan over a list rebuilt on every call:
@@ -187,13 +187,13 @@ theorem scan_complete_keycursor (m : Bytes → Bool) (count : Nat) (hist : List 
     apply to it verbatim (the fast-path reply comes in hash-table order in the real code). -/
 theorem sscan_same_walk (g : Cfg) (hg : g.ok) (members : List Bytes) (cursor count : Nat) (pat : Option Bytes) :
     Code.sscan g members cursor count pat =
-      Code.scanSorted g (Code.matchOpt pat) (sortKeys members) cursor count :=
+      Code.scanSorted g (Code.matchOpt g.lossy pat) (sortKeys members) cursor count :=
   sscan_eq_scanSorted g hg members cursor count pat
 
 /-- HSCAN: the same walk over the field names; NOVALUES returns exactly the fields. -/
 theorem hscan_same_walk (g : Cfg) (hg : g.ok) (h : List (Bytes × Bytes)) (cursor count : Nat) (pat : Option Bytes) :
     Code.hscan g h cursor count pat true =
-      Code.scanSorted g (Code.matchOpt pat) (sortKeys (h.map (·.1))) cursor count := by
+      Code.scanSorted g (Code.matchOpt g.lossy pat) (sortKeys (h.map (·.1))) cursor count := by
   unfold Code.hscan
   simp only [if_true]
   rw [sscan_eq_scanSorted g hg]
@@ -208,51 +208,22 @@ theorem hscan_with_values (g : Cfg) (h : List (Bytes × Bytes)) (cursor count : 
 /-- ZSCAN: the same walk over the members, each returned with its score. -/
 theorem zscan_same_walk (g : Cfg) (hg : g.ok) (z : List (Bytes × Int)) (cursor count : Nat) (pat : Option Bytes) :
     (Code.zscan g z cursor count pat).1 =
-      (Code.scanSorted g (Code.matchOpt pat) (sortKeys (z.map (·.1))) cursor count).1 ∧
+      (Code.scanSorted g (Code.matchOpt g.lossy pat) (sortKeys (z.map (·.1))) cursor count).1 ∧
     (Code.zscan g z cursor count pat).2.map (·.1) =
-      (Code.scanSorted g (Code.matchOpt pat) (sortKeys (z.map (·.1))) cursor count).2 := by
+      (Code.scanSorted g (Code.matchOpt g.lossy pat) (sortKeys (z.map (·.1))) cursor count).2 := by
   unfold Code.zscan
   rw [sscan_eq_scanSorted g hg]
   simp [List.map_map, Function.comp_def]
 
 /-! ### The MATCH matcher -/
 
+/-- MATCH on the current tree still goes through `String::from_utf8_lossy`.  Stops checking when
+    the matcher is made byte-wise (then `match_refines` applies and the finding is closed). -/
+theorem tree_match_is_lossy : Gen.scanCfg.lossy = true := by decide
+
 /-- The recursion budget of the model's matcher is never the reason for a verdict. -/
 theorem match_fuel_irrelevant (p t : List Nat) : (Code.globLoop (Code.globFuel p t) p t none).isSome = true :=
   globLoop_fuel_enough p t
-
-/-- `MATCH *` accepts every key (any bytes). -/
-theorem match_star_all (key : Bytes) : Code.matchBytes [42] key = true := by
-  unfold Code.matchBytes
-  rw [show decodeLossy [42] = [42] from rfl]
-  exact globChars_star _
-
-/-- An ASCII pattern without `*`, `?`, `[`, `\` selects, among ASCII keys, exactly itself. -/
-theorem match_literal_exact (pat key : Bytes) (hp : ∀ x ∈ pat, plain x ∧ x < 128) (hk : ∀ b ∈ key, b < 128) :
-    Code.matchBytes pat key = true ↔ key = pat := by
-  unfold Code.matchBytes
-  rw [decodeLossy_ascii pat (fun b hb => (hp b hb).2), decodeLossy_ascii key hk]
-  exact globChars_literal pat key (fun x hx => (hp x hx).1)
-
-/-- `MATCH ?` accepts, among ASCII keys, exactly those of length 1. -/
-theorem match_question (key : Bytes) (hk : ∀ b ∈ key, b < 128) :
-    Code.matchBytes [63] key = true ↔ key.length = 1 := by
-  unfold Code.matchBytes
-  rw [show decodeLossy [63] = [63] from rfl, decodeLossy_ascii key hk]
-  exact globChars_question key
-
-/-- `MATCH prefix*` (ASCII literal prefix) accepts, among ASCII keys, exactly those that begin
-    with the prefix — the `user:*` idiom. -/
-theorem match_prefix_star (pre key : Bytes) (hp : ∀ x ∈ pre, plain x ∧ x < 128) (hk : ∀ b ∈ key, b < 128) :
-    Code.matchBytes (pre ++ [42]) key = pre.isPrefixOf key := by
-  unfold Code.matchBytes
-  have hpa : ∀ b ∈ pre ++ [42], b < 128 := by
-    intro b hb
-    rcases List.mem_append.mp hb with h | h
-    · exact (hp b h).2
-    · simp at h; omega
-  rw [decodeLossy_ascii _ hpa, decodeLossy_ascii key hk]
-  exact globChars_prefix_star pre key (fun x hx => (hp x hx).1)
 
 /-- **The matcher computes glob semantics** on every pattern of the agreed fragment — any mix of
     literals, `?`, `*` (any number), classes, negated classes, ranges and escapes that
@@ -262,14 +233,24 @@ theorem match_refines_glob (p t : List Nat) (toks : List Spec.Tok) (h : Spec.tok
     Code.globChars p t = Spec.matchToks toks t :=
   globChars_eq_matchToks p t toks h
 
-/-- Hence, over bytes: when pattern and key are ASCII and the pattern is in the agreed fragment,
-    MATCH accepts the key exactly when glob matching over bytes does.  (Exclusions: a byte
-    ≥ 0x80 on either side — see `match_sound_fails_on_invalid_utf8`; a pattern outside the
-    fragment — see `match_quirks_outside_fragment`.) -/
+/-- **Full statement (byte-wise matcher, `lossy = false`)**: for every pattern of the fragment and
+    every key, MATCH accepts the key exactly when glob matching over bytes does. -/
+theorem match_refines (pat key : Bytes) (toks : List Spec.Tok) (hw : Spec.tokenize pat = some toks) :
+    Spec.matchBytes pat key = some (Code.matchBytes false pat key) := by
+  unfold Spec.matchBytes Code.matchBytes
+  rw [hw]
+  simp only [Bool.false_eq_true, if_false]
+  rw [globChars_eq_matchToks pat key toks hw]
+  rfl
+
+/-- **The code as it is (`lossy = true`)**: the same holds when pattern and key are ASCII.
+    (Exclusions: a byte ≥ 0x80 on either side — see `match_sound_fails_on_invalid_utf8`; a pattern
+    outside the fragment — see `match_quirks_outside_fragment`.) -/
 theorem match_refines_partial (pat key : Bytes) (hp : ∀ b ∈ pat, b < 128) (hk : ∀ b ∈ key, b < 128)
     (toks : List Spec.Tok) (hw : Spec.tokenize pat = some toks) :
-    Spec.matchBytes pat key = some (Code.matchBytes pat key) := by
+    Spec.matchBytes pat key = some (Code.matchBytes true pat key) := by
   unfold Spec.matchBytes Code.matchBytes
+  simp only [if_true]
   rw [decodeLossy_ascii pat hp, decodeLossy_ascii key hk, hw, globChars_eq_matchToks pat key toks hw]
   rfl
 
@@ -277,16 +258,62 @@ theorem match_refines_partial (pat key : Bytes) (hp : ∀ b ∈ pat, b < 128) (h
     a SCAN call with `MATCH pat` satisfies the glob pattern over bytes. -/
 theorem scan_sound_glob_partial (g : Cfg) (hg : g.ok) (db : Db) (cursor count : Nat) (pat : Bytes) (ty : Option Bytes)
     (k : Bytes) (hk : k ∈ (Code.scan g db cursor count (some pat) ty).2)
-    (hp : ∀ b ∈ pat, b < 128) (hka : ∀ b ∈ k, b < 128) (toks : List Spec.Tok) (hw : Spec.tokenize pat = some toks) :
+    (hp : g.lossy = true → ∀ b ∈ pat, b < 128) (hka : g.lossy = true → ∀ b ∈ k, b < 128)
+    (toks : List Spec.Tok) (hw : Spec.tokenize pat = some toks) :
     Spec.matchBytes pat k = some true := by
-  have := (scanSorted_mem g (Code.matchOpt (some pat)) hg (view ty db) cursor count k hk).2
-  rw [match_refines_partial pat k hp hka toks hw]
-  simpa [Code.matchOpt] using this
+  have := (scanSorted_mem g (Code.matchOpt g.lossy (some pat)) hg (view ty db) cursor count k hk).2
+  simp only [Code.matchOpt] at this
+  cases hl : g.lossy with
+  | true =>
+    rw [hl] at this
+    rw [match_refines_partial pat k (hp hl) (hka hl) toks hw, this]
+  | false =>
+    rw [hl] at this
+    rw [match_refines pat k toks hw, this]
 
-/-- Outside the fragment the matcher has quirks of its own (none of them is a C19 violation; the
-    patterns have no agreed meaning): an unclosed `[` never matches, not even the key `[`; `[abc`
-    does not match `a`; `\` is not an escape inside a class, so `[\]]` does not match `]`; a
-    reversed range `[z-a]` is empty; in `[a-]` the `-` is a member. -/
+/-- `MATCH *` accepts every key (any bytes), lossy or not. -/
+theorem match_star_all (lossy : Bool) (key : Bytes) : Code.matchBytes lossy [42] key = true := by
+  unfold Code.matchBytes
+  cases lossy
+  · simp only [Bool.false_eq_true, if_false]; exact globChars_star _
+  · simp only [if_true]
+    rw [show decodeLossy [42] = [42] from rfl]
+    exact globChars_star _
+
+/-- An ASCII pattern without `*`, `?`, `[`, `\` selects, among ASCII keys, exactly itself. -/
+theorem match_literal_exact (pat key : Bytes) (hp : ∀ x ∈ pat, plain x ∧ x < 128) (hk : ∀ b ∈ key, b < 128) :
+    Code.matchBytes true pat key = true ↔ key = pat := by
+  unfold Code.matchBytes
+  simp only [if_true]
+  rw [decodeLossy_ascii pat (fun b hb => (hp b hb).2), decodeLossy_ascii key hk]
+  exact globChars_literal pat key (fun x hx => (hp x hx).1)
+
+/-- `MATCH ?` accepts, among ASCII keys, exactly those of length 1. -/
+theorem match_question (key : Bytes) (hk : ∀ b ∈ key, b < 128) :
+    Code.matchBytes true [63] key = true ↔ key.length = 1 := by
+  unfold Code.matchBytes
+  simp only [if_true]
+  rw [show decodeLossy [63] = [63] from rfl, decodeLossy_ascii key hk]
+  exact globChars_question key
+
+/-- `MATCH prefix*` (ASCII literal prefix) accepts, among ASCII keys, exactly those that begin
+    with the prefix — the `user:*` idiom. -/
+theorem match_prefix_star (pre key : Bytes) (hp : ∀ x ∈ pre, plain x ∧ x < 128) (hk : ∀ b ∈ key, b < 128) :
+    Code.matchBytes true (pre ++ [42]) key = pre.isPrefixOf key := by
+  unfold Code.matchBytes
+  simp only [if_true]
+  have hpa : ∀ b ∈ pre ++ [42], b < 128 := by
+    intro b hb
+    rcases List.mem_append.mp hb with h | h
+    · exact (hp b h).2
+    · simp at h; omega
+  rw [decodeLossy_ascii _ hpa, decodeLossy_ascii key hk]
+  exact globChars_prefix_star pre key (fun x hx => (hp x hx).1)
+
+/-- Outside the fragment the matcher has quirks of its own (none of them is counted as a C19
+    violation; the patterns have no agreed meaning): an unclosed `[` never matches, not even the
+    key `[`; `[abc` does not match `a`; `\` is not an escape inside a class, so `[\]]` does not
+    match `]`; a reversed range `[z-a]` is empty; in `[a-]` the `-` is a member. -/
 theorem match_quirks_outside_fragment :
     Spec.tokenize [91] = none ∧ Code.globChars [91] [91] = false ∧
     Spec.tokenize [91, 97, 98, 99] = none ∧ Code.globChars [91, 97, 98, 99] [97] = false ∧
@@ -295,13 +322,14 @@ theorem match_quirks_outside_fragment :
     Spec.tokenize [91, 97, 45, 93] = none ∧ Code.globChars [91, 97, 45, 93] [45] = true := by
   decide
 
-/-- **MATCH is not sound over bytes.**  Pattern and key are decoded lossily, so the literal
-    pattern `\xff` accepts the different key `\xfe` (both become U+FFFD), which glob matching
-    over bytes rejects; and `?` accepts the two-byte key `é`. -/
+/-- **MATCH on lossily decoded text is not sound over bytes.**  The literal pattern `\xff`
+    accepts the different key `\xfe` (both become U+FFFD), which glob matching over bytes rejects;
+    and `?` accepts the two-byte key `é`.  The byte-wise matcher gets both right. -/
 theorem match_sound_fails_on_invalid_utf8 :
-    Code.matchBytes [255] [254] = true ∧ Spec.matchBytes [255] [254] = some false ∧
-    Code.matchBytes [63] [195, 169] = true ∧ Spec.matchBytes [63] [195, 169] = some false := by
-  refine ⟨?_, ?_, ?_, ?_⟩ <;> decide
+    Code.matchBytes true [255] [254] = true ∧ Spec.matchBytes [255] [254] = some false ∧
+    Code.matchBytes true [63] [195, 169] = true ∧ Spec.matchBytes [63] [195, 169] = some false ∧
+    Code.matchBytes false [255] [254] = false ∧ Code.matchBytes false [63] [195, 169] = false := by
+  decide
 
 /-! ### Non-vacuity: concrete non-trivial instances of the hypotheses -/
 
@@ -310,12 +338,12 @@ theorem match_sound_fails_on_invalid_utf8 :
 example :
     let hist : List Db := [[([98], 0), ([99], 0), ([100], 0), ([101], 0)],
                            [([97], 0), ([98], 0), ([99], 0), ([100], 0)]]
-    Code.iterFinishes Gen.scanCfg (Code.matchOpt none) 2 0 (hist.map (view none)) = true ∧
-    Code.noDelBelow Gen.scanCfg (Code.matchOpt none) 2 0 (hist.map (view none)) = true ∧
-    Code.iter Gen.scanCfg (Code.matchOpt none) 2 0 (hist.map (view none)) = [[[98], [99]], [[99], [100]]] := by
+    Code.iterFinishes Gen.scanCfg (Code.matchOpt true none) 2 0 (hist.map (view none)) = true ∧
+    Code.noDelBelow Gen.scanCfg (Code.matchOpt true none) 2 0 (hist.map (view none)) = true ∧
+    Code.iter Gen.scanCfg (Code.matchOpt true none) 2 0 (hist.map (view none)) = [[[98], [99]], [[99], [100]]] := by
   decide
 
-example : Code.iterCalls Gen.scanCfg (Code.matchOpt none) 2 0 (List.replicate 3 [[97], [98], [99], [100], [101]]) = some 3 := by
+example : Code.iterCalls Gen.scanCfg (Code.matchOpt true none) 2 0 (List.replicate 3 [[97], [98], [99], [100], [101]]) = some 3 := by
   decide
 
 example : NonGrowing [[[97], [98], [99]], [[98], [99]], [[99]]] := by
@@ -327,7 +355,7 @@ example : Code.scan Gen.scanCfg [([97, 49], 0), ([98], 2), ([97, 50], 0), ([97],
 example : Spec.iterAfter (fun _ => true) 1 none [[[97], [98], [99]], [[98], [99]], [[98], [99]]] = [[[97]], [[98]], [[99]]] := by
   decide
 
-example : Code.matchBytes [117, 115, 101, 114, 58, 42] [117, 115, 101, 114, 58, 49, 48] = true := by decide
+example : Code.matchBytes true [117, 115, 101, 114, 58, 42] [117, 115, 101, 114, 58, 49, 48] = true := by decide
 
 -- a pattern of the agreed fragment with a negated class, a range, an escape and two stars
 example : Spec.tokenize [42, 91, 94, 97, 45, 99, 120, 93, 92, 42, 63, 42] =
